@@ -9,6 +9,7 @@
 //     checkstyle and TeamCity without panic or error;
 //  4. 1 <= Lines.First <= Lines.Last <= TotalLines for every problem, and every
 //     diagnostic position lies on a line of the file.
+//
 // A binary tier runs the real `pint lint` on a sample and scans stderr.
 package c02
 
@@ -106,7 +107,7 @@ func check(c Case) (st stat, err error) {
 	var res lint.Result
 	go func() {
 		defer close(done)
-		res = lint.Files([]lint.File{{Name: "rules.yml", Content: b}}, lint.Options{Relaxed: c.Relaxed, Thanos: c.Thanos, Legacy: c.Legacy, Offline: true, KeepDir: true})
+		res = lint.Files([]lint.File{{Name: "rules.yml", Content: b}}, lint.Options{Relaxed: c.Relaxed, Thanos: c.Thanos, Legacy: c.Legacy, Offline: true, KeepDir: true, ConfigHCL: c.Cfg})
 	}()
 	select {
 	case <-done:
@@ -202,11 +203,120 @@ var hostile = []string{
 	strings.Repeat("- alert: a\n  expr: up\n", 200), "- alert: " + strings.Repeat("a", 5000) + "\n  expr: up\n", strings.Repeat("a:\n ", 50) + "- alert: a\n", strings.Repeat("[", 200),
 }
 
+// cfgPool: configurations with rule {} blocks whose match / ignore conditions and checks are evaluated for
+// every entry of the file - also for entries that are only a parse error and have no rule fields at all.
+var cfgPool = []string{
+	`rule {
+  match {
+    name = "Foo.*"
+  }
+  label "team" {
+    required = true
+  }
+}
+`,
+	`rule {
+  ignore {
+    name = ".*Down"
+    kind = "alerting"
+  }
+  annotation "summary" {
+    required = true
+  }
+}
+rule {
+  match {
+    kind = "recording"
+    name = "job:.+"
+  }
+  aggregate ".+" {
+    keep = ["job"]
+  }
+}
+`,
+	`rule {
+  match {
+    path = "rules.*"
+    for = "> 1m"
+    keep_firing_for = "> 0"
+    state = ["any"]
+    label "job" {
+      value = ".+"
+    }
+    annotation "summary" {
+      value = ".+"
+    }
+  }
+  for {
+    min = "1m"
+    max = "1h"
+  }
+  keep_firing_for {
+    min = "1m"
+  }
+  reject ".* +.*" {
+    label_keys = true
+    label_values = true
+    annotation_keys = true
+    annotation_values = true
+  }
+  name "[A-Z].+" {
+  }
+  report {
+    comment = "matched"
+    severity = "info"
+  }
+}
+rule {
+  ignore {
+    command = "lint"
+  }
+  label "never" {
+    required = true
+  }
+}
+rule {
+  enable = ["promql/fragile"]
+  disable = ["alerts/comparison"]
+}
+checks {
+  disabled = ["promql/regexp"]
+}
+`,
+	`owners {
+  allowed = ["team-.+"]
+}
+rule {
+  match {
+    label "severity" {
+      value = "page|critical"
+    }
+  }
+  ignore {
+    annotation "runbook_url" {
+      value = "https://.+"
+    }
+  }
+  annotation "runbook_url" {
+    required = true
+    severity = "bug"
+  }
+  label "severity" {
+    value = "(page|critical|warning)"
+    token = "[a-z]+"
+  }
+}
+`,
+}
+
 func genCase(t *rapid.T) Case {
 	c := Case{
 		Relaxed: rapid.Bool().Draw(t, "relaxed"),
 		Thanos:  rapid.IntRange(0, 3).Draw(t, "thanos") == 0,
 		Legacy:  rapid.IntRange(0, 3).Draw(t, "legacy") == 0,
+	}
+	if rapid.IntRange(0, 2).Draw(t, "withcfg") == 0 {
+		c.Cfg = rapid.SampledFrom(cfgPool).Draw(t, "cfg")
 	}
 	p := &gen.Perturber{T: t}
 	var src string
@@ -383,7 +493,9 @@ func TestPropBinary(t *testing.T) {
 		if rapid.IntRange(0, 2).Draw(rt, "owner") == 0 {
 			lint = append(lint, "--require-owner")
 			if rapid.Bool().Draw(rt, "allowed") {
-				c.Cfg = "owners {\n  allowed = [\"^team-.+$\"]\n}\n"
+				if !strings.Contains(c.Cfg, "owners {") {
+					c.Cfg += "owners {\n  allowed = [\"^team-.+$\"]\n}\n"
+				}
 			}
 			switch rapid.IntRange(0, 3).Draw(rt, "ownerc") {
 			case 0:
